@@ -625,6 +625,18 @@ def run(shard, ctx):
                     got = [[e[2].get_note_names()[0] for e in b] for b in tr]
                     ctx.check("track: length and indexing follow the bars", st == "ok" and len(tr) == len(want) and got == [list(x) for x in want]
                               and tr[i] is nb, {"history": trail}, [list(x) for x in want], got if st == "ok" else repr(r), mechanism="index-assign")
+                # ... and the library's own report of "every bar except the last is full" on tracks put together bar by bar
+                for rep in range(3):
+                    tb = Track()
+                    fulls = []
+                    for _k in range(rngi.randint(1, 5)):
+                        full = rngi.random() < 0.6
+                        tb.add_bar(bar_of(X if full else rngi.choice([Z, ["G"], ["F", "A"], []])))
+                        fulls.append(full)
+                    want_ok = all(fulls[:-1])
+                    st, integ = ctx.call(tb.test_integrity)
+                    ctx.check("track: every bar except the last is full", st == "ok" and bool(integ) == want_ok,
+                              {"bars_full": fulls, "assembled_with": "add_bar"}, want_ok, repr(integ), mechanism="integrity-assembled")
                 st, r = ctx.call(tr.__setitem__, 0, "not a bar")
                 ctx.check("track: length and indexing follow the bars", st == "exc" and len(tr) == len(want),
                           {"history": trail + [("track[0] = 'not a bar'",)]}, "refused, nothing changed", repr(r), mechanism="index-assign-refused")
